@@ -17,11 +17,12 @@ the expression up to `norm` (`parse_format_exp`), printing the result gives
 the same text (`format_exp_idem`), and the normal form is stable
 (`norm_stable`).  The keyword table and the `id` production the tokenizer
 model uses are re-read from the source (`keyword_table_current`,
-`id_tokens_current`).
+`id_tokens_current`).  Call statements without modifiers (section CallStatements,
+model Martian/FormatCall.lean): `parse_format_call`, `format_call_idem`.
 (That the model's closed table is the map the Go loop builds, that `fmt` is
 `FormatExp` and `parseValExp` is `ParseValExp` is tied by correspondence on
-generated inputs, every run.)  Not proved: comments, declaration layout,
-include expansion (monitors only); strconv's float printing/parsing (trusted).
+generated inputs, every run.)  Not proved: comments, declaration layout beyond
+call statements, include expansion (monitors only); strconv's float printing/parsing (trusted).
 -/
 import Martian.Format
 import Proofs.Format
